@@ -26,6 +26,20 @@ Theorem C01_external_lengths : forall x, x < 18446744073709551616 ->
 Proof. exact external_len_agree. Qed.
 Print Assumptions C01_external_lengths.
 
+(* the variable-width writers are the fixed-width writers at the minimal
+   width (so the model's unreachable default is really unreachable), and the
+   fixed-width writers are defined exactly for widths 1..8 *)
+Theorem C01_external_put_as_fixed : forall x, x < 18446744073709551616 ->
+  ext_put_fixed x (ext_width x) = Some (ext_put x) /\
+  extbe_put_fixed x (ext_width x) = Some (extbe_put x).
+Proof. exact ext_put_as_fixed. Qed.
+Print Assumptions C01_external_put_as_fixed.
+
+Theorem C01_external_fixed_domain : forall x w, ~ (1 <= w <= 8)%nat ->
+  ext_put_fixed x w = None /\ extbe_put_fixed x w = None.
+Proof. exact ext_fixed_domain. Qed.
+Print Assumptions C01_external_fixed_domain.
+
 (* fixed width w with ext_width x <= w <= 8: exactly w bytes are produced and
    they read back as x *)
 Theorem C01_external_fixed_roundtrip : forall x w tl, x < 18446744073709551616 ->
